@@ -481,6 +481,18 @@ func (p *Prog) envVersions(c *Ctx, f *Func) {
 		if p.CalleeName(f, call) == "strings.Join" && len(call.Args) == 2 {
 			if par, ok := p.Parent(call).(*ast.CallExpr); ok && strings.HasPrefix(p.envKeyOf(f, par), "PLUGIN_PROTOCOL_VERSIONS") {
 				joined, _ = identObj(info, call.Args[0]).(*types.Var)
+				// a plain copy of the list that was built (left by helper inlining)
+				for i := 0; i < 3 && joined != nil; i++ {
+					d := p.singleDef(f, joined)
+					if d == nil {
+						break
+					}
+					src, isV := identObj(info, ast.Unparen(d)).(*types.Var)
+					if !isV || src.IsField() {
+						break
+					}
+					joined = src
+				}
 				if s, ok := constString(info, call.Args[1]); ok && s == "," {
 					sepOK = true
 				}
